@@ -1125,6 +1125,15 @@ func (h *hmapType) checkInsertHelpers() {
 					}
 					// a map's update stores the new value: directly, or through an entry method that does so
 					// unconditionally (one that can refuse — panic/recover inside — leaves the old value)
+					// an add-operation accumulates into the stored value, a put-operation replaces it
+					// (siblings: eleven add helpers use `+=`); the helper's name says which it is
+					lname := strings.ToLower(strings.TrimLeft(fi.Obj.Name(), "_"))
+					if strings.HasPrefix(lname, "add") && pa.HasArg("SETVAL", "=") && !pa.HasArg("SETVAL", "+=") {
+						upd = append(upd, "an add on an existing key overwrites the stored value instead of adding to it (`=` where the sibling maps have `+=`): Add(k, 1); Add(k, 2) leaves 2")
+					}
+					if strings.HasPrefix(lname, "put") && pa.HasArg("SETVAL", "+=") {
+						upd = append(upd, "a put on an existing key adds to the stored value instead of replacing it")
+					}
 					if pa.HasArg("SETVAL", "guarded") && !pa.HasArg("SETVAL", "=") && !pa.HasArg("SETVAL", "+=") {
 						upd = append(upd, "the update of an existing key goes through an entry method that can refuse the value (it panics and recovers inside): the old value stays and the caller is told otherwise")
 					}
@@ -2759,4 +2768,111 @@ func linkReadAfterWrite(info *types.Info, body ast.Node) string {
 		return true
 	})
 	return why
+}
+
+// checkCtor: every package function that builds this collection (returns *T and makes its table) makes
+// the table with a length that cannot be zero: a positive constant, or a parameter that the
+// constructor has normalised first (`if n == 0 { n = 1 }`, or a rejecting guard `n <= 0` / `n < 1`).
+// A zero-length table makes the first lookup divide by zero.
+func (h *hmapType) checkCtor() {
+	for _, fi := range h.p.Funcs {
+		if fi.Decl.Body == nil || fi.Obj.Pkg() != h.t.Obj().Pkg() || core.RecvNamed(fi.Obj) != nil {
+			continue
+		}
+		sig := fi.Obj.Type().(*types.Signature)
+		if sig.Results().Len() != 1 {
+			continue
+		}
+		pt, ok := sig.Results().At(0).Type().(*types.Pointer)
+		if !ok {
+			continue
+		}
+		if n, ok := pt.Elem().(*types.Named); !ok || n.Obj() != h.t.Obj() {
+			continue
+		}
+		info := fi.Pkg.TypesInfo
+		var makes []*ast.CallExpr
+		ast.Inspect(fi.Decl.Body, func(n ast.Node) bool {
+			as, ok := n.(*ast.AssignStmt)
+			if !ok || len(as.Lhs) != 1 || len(as.Rhs) != 1 {
+				return true
+			}
+			sel, ok := ast.Unparen(as.Lhs[0]).(*ast.SelectorExpr)
+			if !ok || sel.Sel.Name != "table" {
+				return true
+			}
+			if call, ok := ast.Unparen(as.Rhs[0]).(*ast.CallExpr); ok {
+				if id, ok := call.Fun.(*ast.Ident); ok && id.Name == "make" && len(call.Args) >= 2 {
+					makes = append(makes, call)
+				}
+			}
+			return true
+		})
+		for _, mk := range makes {
+			c := h.name + " constructor " + fi.Obj.Name()
+			pos := h.p.Pos(fi.Decl.Pos())
+			ln := ast.Unparen(stripConvs(info, mk.Args[1]))
+			if k, isC := constIntOf(info, ln); isC {
+				h.r.Check(k > 0, h.pre+".ctor", c, pos, fmt.Sprintf("%d buckets", k), fmt.Sprintf("the table is made with %d buckets", k))
+				continue
+			}
+			id, ok := ln.(*ast.Ident)
+			if !ok {
+				h.r.Undec(h.pre+".ctor", c, pos, "table length "+types.ExprString(ln)+" is neither a constant nor a variable")
+				continue
+			}
+			obj := info.ObjectOf(id)
+			// a local with one constant definition
+			if d := localDefIn(info, fi.Decl.Body, id); d != nil {
+				if k, isC := constIntOf(info, d); isC {
+					h.r.Check(k > 0, h.pre+".ctor", c, pos, fmt.Sprintf("%d buckets", k), fmt.Sprintf("the table is made with %d buckets", k))
+					continue
+				}
+			}
+			// a parameter: normalised or rejected before the make
+			okGuard := false
+			ast.Inspect(fi.Decl.Body, func(n ast.Node) bool {
+				ifs, ok := n.(*ast.IfStmt)
+				if !ok || ifs.Pos() > mk.Pos() {
+					return true
+				}
+				be, ok := ast.Unparen(ifs.Cond).(*ast.BinaryExpr)
+				if !ok {
+					return true
+				}
+				x, isX := ast.Unparen(be.X).(*ast.Ident)
+				k, isC := constIntOf(info, be.Y)
+				if !isX || !isC || info.ObjectOf(x) != obj {
+					return true
+				}
+				coversZero := (be.Op == token.EQL && k == 0) || (be.Op == token.LEQ && k == 0) || (be.Op == token.LSS && k == 1)
+				if !coversZero {
+					return true
+				}
+				// the arm re-assigns the variable to a positive constant, or leaves the function
+				ast.Inspect(ifs.Body, func(m ast.Node) bool {
+					switch v := m.(type) {
+					case *ast.AssignStmt:
+						for i, l := range v.Lhs {
+							if lid, ok := l.(*ast.Ident); ok && info.ObjectOf(lid) == obj && i < len(v.Rhs) {
+								if kk, isC := constIntOf(info, v.Rhs[i]); isC && kk > 0 {
+									okGuard = true
+								}
+							}
+						}
+					case *ast.ReturnStmt:
+						okGuard = true
+					case *ast.CallExpr:
+						if pid, ok := v.Fun.(*ast.Ident); ok && pid.Name == "panic" {
+							okGuard = true
+						}
+					}
+					return true
+				})
+				return true
+			})
+			h.r.Check(okGuard, h.pre+".ctor", c, pos, "a zero capacity is normalised before the table is made",
+				"the table is made with the caller's capacity `"+id.Name+"` as it is: "+fi.Obj.Name()+"(0, ...) builds a collection without buckets and the first lookup divides by zero")
+		}
+	}
 }
